@@ -268,3 +268,109 @@ def replay_dealer_pending_drain(model, params, role):
         return f"dealer_burst {n}\n", (lambda out: "STUCK" in out), \
             f"DEALER connects to a ROUTER and sends {n} messages at once; expecting some of them never to arrive"
     return None
+
+
+# ------------------------------------------------------------------------------------------------
+# C15 kernel: what the session holds when it is told to stop gracefully
+def graceful_stop_with_pending_output(h):
+    """The session actor has just processed Command::Stop without error (phase ShuttingDownStream) while it still
+    holds accepted messages: k framed chunks in its egress buffer and m messages in the carry-over. Region mode from
+    the head of the operational loop to perform_graceful_shutdown (which shuts the write half down)."""
+    prog = h.it.prog
+    fn = prog.resolve_method("", ACTOR, "run_loop", None)
+    clo = fn + "::{closure#0}"
+    body = prog.body(clo)
+    dbg = _debug_places(prog, clo)
+    k = h.choose(3, "framed_chunks")
+    m = h.choose(3, "carryover_messages")
+    if k + m == 0:
+        raise PathAbort("nothing pending")
+    fields = prog.struct_fields(ACTOR)
+    vals = [Opaque(f) for f in fields]
+    vs = prog.enum_variants("sessionx::states::ConnectionPhaseX")
+    vals[fields.index("current_phase")] = Enum("sessionx::states::ConnectionPhaseX", vs.index("ShuttingDownStream"), "ShuttingDownStream", [])
+    vals[fields.index("handle")] = 1
+    for nm in ("read_half", "write_half"):
+        vals[fields.index(nm)] = none()
+    actor = Agg(ACTOR, vals)
+    sf = SparseF([actor])
+    i0 = prog.fn_index[clo]
+    mm = None
+    for ln in prog.lines[i0:i0 + 20000]:
+        mm = re.search(r"\(\(\(\*_(\d+)\) as variant#(\d+)\)\.(\d+): sessionx::actor::SessionConnectionActorX<S>\)", ln)
+        if mm or ln.startswith("}"):
+            break
+    sf[(int(mm.group(2)) + 1) * 1000 + int(mm.group(3))] = actor
+    def put(name, v):
+        kind = dbg[name]
+        sf[(kind[2] + 1) * 1000 + kind[3]] = v
+    eb = Ref(Cell(h.method("sessionx::egress_buffer::EgressBuffer", "new"), "eb"), ())
+    for i in range(k):
+        h.method("sessionx::egress_buffer::EgressBuffer", "push", eb, Seq("bytes", [h.byte(f"chunk{i}")]), 1)
+    def mk(tag):
+        fb = Ref(Cell(h.method("message::FrameBatch", "new"), "fb"), ())
+        h.method("message::FrameBatch", "push", fb, h.method("message::msg::Msg", "from_vec", Seq("vec", [tag])))
+        return fb.load()
+    put("egress_buffer", eb.load())
+    put("core_carryover", Seq("vecdeque", [mk(t) for t in range(1, m + 1)], "message::FrameBatch"))
+    put("outgoing_batch", Seq("vec", [], "message::FrameBatch"))
+    put("pending_vectored", Seq("vecdeque", [], "?"))
+    put("use_owned_write", False)
+    put("sndhwm", 8)
+    for nm in ("read_half", "write_half"):
+        if nm in dbg and dbg[nm][0] == "field":
+            put(nm, Agg("{" + nm + "}", []))
+    if "ingress_buffer" in dbg and dbg["ingress_buffer"][0] == "field":
+        put("ingress_buffer", Seq("vecdeque", [], "message::FrameBatch"))
+    coro = Ref(Cell(Agg("{coroutine@run_loop}", sf), "coro"), ())
+    # entry: the `while self.current_phase == Operational` test = the first comparison of current_phase after the
+    # declaration of core_carryover, in source order
+    decl = None
+    i = i0
+    while not prog.lines[i].lstrip().startswith("bb0:"):
+        m2 = re.match(r"^\s*debug core_carryover => .*actor\.rs:(\d+):", prog.lines[i])
+        if m2:
+            decl = int(m2.group(1))
+        i += 1
+    best = None
+    for bb, raw in body.blocks.items():
+        if "ConnectionPhaseX as std::cmp::PartialEq>::eq(" in raw[-1][0]:
+            m3 = re.search(r"actor\.rs:(\d+):", raw[-1][1] or "")
+            line = int(m3.group(1)) if m3 else 10 ** 9
+            if decl is not None and line > decl and (best is None or line < best[0]):
+                best = (line, bb)
+    h.check(best is not None, "c15.setup.entry-block")
+    written = []
+    def stop(it, args, dty, func):
+        raise _Stop()
+    h.it.hooks[prog.resolve_method("", ACTOR, "perform_graceful_shutdown", None)] = stop
+    def extern(it, plain, args, dty, func):
+        # anything written to the stream on the way out counts as flushed
+        if "write_all" in plain or "write_vectored" in plain or plain.endswith("::write") or "poll_write" in plain:
+            written.append(plain)
+            return Agg("{future}", ["write"])
+        if plain.endswith("Future>::poll"):
+            return Enum("std::task::Poll", 0, "Ready", [ok(UNIT)])
+        if plain.endswith("IntoFuture>::into_future") or plain.startswith("std::pin::Pin::"):
+            return args[0]
+        return NotImplemented
+    h.it.extern = extern
+    h.panic_role = "c15.graceful-stop"
+    try:
+        h.it.run_body(body, [], start_bb=best[1], preset={dbg["core_carryover"][1]: coro, 2: Opaque("cx")})
+    except _Stop:
+        pass
+    ebv = sf[(dbg["egress_buffer"][2] + 1) * 1000 + dbg["egress_buffer"][3]]
+    left_bytes = h.method("sessionx::egress_buffer::EgressBuffer", "total_pending_bytes", Ref(Cell(ebv, "eb2"), ()))
+    left_msgs = len(sf[(dbg["core_carryover"][2] + 1) * 1000 + dbg["core_carryover"][3]].f)
+    h.check(left_bytes == 0 and left_msgs == 0 or bool(written), "c15.graceful-stop.accepted-output-discarded-when-the-session-stops",
+            f"graceful Stop with {k} framed chunk(s) in the egress buffer and {m} message(s) in the carry-over: the operational loop exits and "
+            f"perform_graceful_shutdown is reached with {left_bytes} framed byte(s) and {left_msgs} message(s) still held and nothing written - they are dropped with the loop's locals")
+    h.cover("c15.graceful-stop.reached-shutdown")
+
+
+def replay_graceful_stop_with_pending_output(model, params, role):
+    if "accepted-output-discarded" in role:
+        return "linger_flush 5000 4096 10000\n", (lambda out: "DISCARDED" in out), \
+            "PUSH with LINGER=10 s, 5000 x 4 KiB messages accepted, then close() + term(); expecting term to return at once and the peer to receive only part of them"
+    return None
